@@ -373,6 +373,24 @@ def validate_events(name, module, trace_path, constants=None, chunk=20000, worke
     return results, rejects, len(lines)
 
 
+def run_apalache(name, module, init, inv, length, cinit, timeout=600):
+    """apalache-mc check on spec/<module>.tla; returns 'NoError' | 'Error' (invariant violated); anything else is a tool error."""
+    wd = os.path.join(WORK, name)
+    shutil.rmtree(wd, ignore_errors=True)
+    os.makedirs(wd)
+    shutil.copy(os.path.join(SPEC, module + ".tla"), wd)
+    cmd = ["timeout", str(timeout), "apalache-mc", "check", "--init=" + init, "--inv=" + inv, "--length=%d" % length,
+           "--cinit=" + cinit, "--out-dir=" + os.path.join(wd, "out"), module + ".tla"]
+    t0 = time.time()
+    r = subprocess.run(cmd, cwd=wd, stdout=subprocess.PIPE, stderr=subprocess.STDOUT, text=True)
+    m = re.search(r"The outcome is: (\w+)", r.stdout)
+    if r.returncode == 124 or not m or m.group(1) not in ("NoError", "Error"):
+        log(r.stdout[-2000:])
+        raise ToolError("apalache run %s did not finish (%s)" % (name, r.returncode))
+    shutil.rmtree(os.path.join(wd, "out"), ignore_errors=True)
+    return {"name": name, "outcome": m.group(1), "wall_s": round(time.time() - t0, 1), "cmd": " ".join(cmd[2:])}
+
+
 def simple_check(pid, tier, seed, t0, runs, rule, assume, level="model_checking", nontrivial=None, extra_cov=None,
                  extra_mismatches=()):
     """Generic pipeline: each run = dict(name, module, constants, invariants, constraints, simulate, depth, workers).
